@@ -1810,6 +1810,82 @@ h!(c08_wind_down_local_drop, 8, f_c08_wind_down(true, false, Step::Ok));
 h!(c08_wind_down_peer_ended_inflight, 8, f_c08_wind_down(false, true, Step::Ok));
 h!(c08_wind_down_local_drop_inflight, 8, f_c08_wind_down(true, true, Step::Err));
 
+/// A stream request made by the application while `wind_down` (after a non-local end) is in its
+/// tail: either it is refused at once (the outbound queue is closed) or its slot is resolved by
+/// the table drain - a request that was accepted (pending) must not keep its slot past the end of
+/// the connection, because nobody would ever resolve it ("every pending and every later operation completes", seed C08b).  A late drop
+/// notification gives `wind_down` a log site after the table was drained.
+static mut WD_MUX: *const Multiplexor<KRng> = core::ptr::null();
+static WD_REQ_STATE: core::sync::atomic::AtomicU8 = core::sync::atomic::AtomicU8::new(0);
+fn act_open_request(_t: *const TTask, _n: u32) {
+    let m = unsafe { &*WD_MUX };
+    if m.flows.is_locked() {
+        return;
+    }
+    static HOST: [u8; 1] = [b'h'];
+    let fut = m.new_stream_channel(&HOST[..], 80);
+    let mut fut = core::mem::ManuallyDrop::new(fut);
+    let p = poll_once(unsafe { Pin::new_unchecked(&mut *fut) });
+    WD_REQ_STATE.store(if p.is_ready() { 1 } else { 2 }, Ordering::Relaxed);
+    core::mem::forget(p);
+}
+fn f_c08_wd_request_in_tail(k: usize) {
+    let ep = endpoint(small_options(), KRng::fixed([ID_C, 2, 3, 4]));
+    ep.mux.dropped_flows_tx.send(ID_B).ok();
+    script_end(&ep, Step::Ok);
+    let Endpoint { mux, task, tx_msg_rx, dropped_flows_rx } = ep;
+    unsafe {
+        WD_MUX = &mux as *const _;
+    }
+    WD_REQ_STATE.store(0, Ordering::Relaxed);
+    *SCHED_TARGET.lock().unwrap() = Some(SchedTarget { data: core::ptr::null(), kind: 2, n: 0, task: &task as *const TTask, task_fn: Some(act_open_request), stream: core::ptr::null_mut(), writer_fn: None });
+    SCHED_FIRE_AT.store(k, Ordering::Relaxed);
+    tracing::sched::set_hook(verif_sched_point);
+    tracing::sched::arm();
+    let r = now_or_never(task.wind_down(false, tx_msg_rx, dropped_flows_rx));
+    tracing::sched::disarm();
+    let st = WD_REQ_STATE.load(Ordering::Relaxed);
+    vassert!(r.is_some(), "P:C08 wind-down blocks although the transport ended");
+    // (a request that is refused at once may leave its slot behind in the dead table: harmless)
+    vassert!(!(st == 2 && task.flows.read().len() != 0), "P:C08 a stream request made while the connection was winding down is left pending for ever (it was accepted, and its slot survives the end of the connection)");
+    kani::cover!(st == 1, "?request refused at once");
+    kani::cover!(st == 2, "?request pending when made, resolved by the drain");
+    kani::cover!(true, "wind-down with a concurrent request evaluated");
+    *SCHED_TARGET.lock().unwrap() = None;
+    core::mem::forget((mux, r, task));
+}
+h!(c08_wd_request_in_tail_k0, 8, f_c08_wd_request_in_tail(0));
+h!(c08_wd_request_in_tail_k1, 8, f_c08_wd_request_in_tail(1));
+h!(c08_wd_request_in_tail_k2, 8, f_c08_wd_request_in_tail(2));
+
+
+/// An invalid (non-frame) message ends the connection with an error at once, also when the peer
+/// then stays silent: the connection task must not wait for the peer to end the source (seed
+/// C10d: wind_down was asked to behave as for a local drop).  The whole `Task::start` future.
+fn f_c08_start_invalid_message() {
+    let ep = endpoint(small_options(), KRng::fixed([1, 2, 3, 4]));
+    let mut open_rx = install_requested(&ep, ID_B);
+    static BAD: [u8; 5] = [0xff, 0, 0, 0, 7];
+    ep.task.ws.lock().push_in(Message::Binary(Bytes::from_static(&BAD)));
+    let Endpoint { mux, task, tx_msg_rx, dropped_flows_rx } = ep;
+    let fut = task.start(dropped_flows_rx, tx_msg_rx);
+    let mut fut = core::mem::ManuallyDrop::new(fut);
+    match poll_once(unsafe { Pin::new_unchecked(&mut *fut) }) {
+        Poll::Ready(r) => {
+            vassert!(matches!(r, Err(Error::InvalidFrame(_))), "P:C10 an invalid message did not end the connection with an InvalidFrame error");
+            core::mem::forget(r);
+        }
+        Poll::Pending => vfail!("P:C10 after an invalid message the connection task waits for the silent peer instead of ending: pending operations never observe the error"),
+    }
+    match open_rx.try_recv() {
+        Ok(None) => {}
+        _ => vfail!("P:C08 a pending stream request was not resolved after the connection ended with an error"),
+    }
+    kani::cover!(true, "invalid message evaluated");
+    core::mem::forget((mux, open_rx));
+}
+h!(c08_start_invalid_message, 8, f_c08_start_invalid_message());
+
 /// Keepalive expires on a transport that stays silent (never yields a message, never ends):
 /// the connection task must complete with KeepaliveTimeout instead of waiting for the peer.
 fn f_c08_keepalive_on_silent_transport() {
